@@ -11,7 +11,8 @@ wrapper model:
   * `delete_object`: commit point vs payload                         -> `deleteOrder`
   * `rename_opts`: copy vs delete of the source                      -> `renameOrder`
   * `collect_garbage`: mark listing before sweep listing, and per candidate
-    in-flight check / re-read of the commit point / delete           -> `gcMarkFirst`, `gcCandidateOrder`
+    in-flight check / re-read of the commit point / delete           -> `gcMarkFirst`, `gcCandidateOrder`;
+    re-read per candidate or memoised per key                        -> `gcRecheckPerCandidate`
   * the in-flight registration: before the payload write, and bound to a named guard that lives to
     the end of the call (not `let _ =`)                              -> `trackBeforePayload`, `guardHeld`
   * the e_tag recipes: is the per-commit seed (generation / base nonce) hashed in?
@@ -194,10 +195,37 @@ def main():
     mark = pos(gc, r"\.list\s*\(\s*Some\s*\(\s*&\s*self\s*\.\s*meta_prefix", "list(meta_prefix) in collect_garbage")
     sweep = pos(gc, r"\.list\s*\(\s*Some\s*\(\s*&\s*self\s*\.\s*gen_prefix", "list(gen_prefix) in collect_garbage")
     floor = pos(gc, r"\bfloor_ms\b", "floor_ms in collect_garbage")
-    g_if = pos(gc, r"\bis_in_flight\s*\(", "is_in_flight in collect_garbage")
-    g_re = pos(gc, r"\bis_referenced\s*\(", "is_referenced in collect_garbage")
-    g_del = pos(gc, r"\.delete\s*\(\s*&\s*full_path", "delete(&full_path) in collect_garbage")
+    # the per-candidate loop: `for (..) in candidates { in-flight check; re-read; delete }`
+    lm = list(re.finditer(r"\bfor\s*\([^)]*\)\s*in\s+candidates\s*\{", gc))
+    if len(lm) != 1:
+        die(f"collect_garbage: expected exactly one `for (..) in candidates` loop, found {len(lm)}")
+    lb = gc.index("{", lm[0].end() - 1)
+    loop = gc[lb + 1:match_close(gc, lb)]
+    loop_off = lb + 1
+    RECHECK = r"\b(is_referenced\w*|fetch_meta_bytes|load_meta|\w*referenc\w*)\s*\("
+    g_if = loop_off + pos(loop, r"\bis_in_flight\s*\(", "is_in_flight in the candidate loop of collect_garbage")
+    rm = re.search(RECHECK, loop)
+    if not rm:
+        die("collect_garbage: no re-read of the commit point (is_referenced / fetch_meta_bytes) in the candidate loop")
+    g_re = loop_off + rm.start()
+    g_del = loop_off + pos(loop, r"\.delete\s*\(\s*&\s*full_path", "delete(&full_path) in the candidate loop of collect_garbage")
     gc_candidate = order_names([("inFlight", g_if), ("recheck", g_re), ("delete", g_del)], "collect_garbage candidate loop")
+    # is the commit point re-read for every candidate, or once per key (answer remembered in a map
+    # keyed by the location and consulted before the backend read)?
+    LOOKUP = r"\.\s*(get|get_mut|entry|contains_key|get_or_insert_with)\s*\(\s*&?\s*\(?\s*location\b"
+    depth = loop[:rm.start()].count("{") - loop[:rm.start()].count("}")
+    isref = fn_in(side_impl, "is_referenced", "impl SidecarStore") if re.search(r"\bfn\s+is_referenced\b", side_impl) else ""
+    isref_fetch = re.search(r"\bfetch_meta_bytes\s*\(|\bload_meta\s*\(", isref)
+    memo_in_helper = bool(isref) and bool(isref_fetch) and re.search(LOOKUP, isref[:isref_fetch.start()]) is not None
+    memo_in_loop = re.search(LOOKUP, loop) is not None
+    if depth == 0 and not memo_in_loop and not memo_in_helper:
+        if rm.group(1).startswith("is_referenced") and not isref_fetch:
+            die("is_referenced no longer reads the commit point from the backend (fetch_meta_bytes / load_meta)")
+        gc_recheck_per_candidate = True
+    elif memo_in_loop or memo_in_helper:
+        gc_recheck_per_candidate = False
+    else:
+        die("collect_garbage: cannot tell whether the commit point is re-read per candidate or per key (re-read is nested but no lookup keyed by `location` found)")
     gc_mark_first = floor < mark < sweep < min(g_if, g_re, g_del)
     gc_floor_skip = re.search(r"\bts\s*>=\s*floor_ms\b", gc) is not None
 
@@ -323,6 +351,10 @@ def gcFloorSkip : Bool := {lean_bool(gc_floor_skip)}
 /-- per candidate: in-flight check, re-read of the commit point, delete -/
 def gcCandidateOrder : List GcCheck := {lean_list(gc_candidate)}
 
+/-- the commit point is re-read from the backend for every candidate (`true`), or once per key with the
+answer reused for the key's later candidates (`false`) -/
+def gcRecheckPerCandidate : Bool := {lean_bool(gc_recheck_per_candidate)}
+
 /-- the generation is minted and registered as in-flight before the payload reaches the backend
 (put, multipart, copy) -/
 def trackBeforePayload : Wrapper → Bool
@@ -362,6 +394,7 @@ theorem gen_self_rename_guard : ∀ w, selfRenameGuard w = true := by intro w; c
 theorem gen_gc_mark_first : gcMarkFirst = true := by decide
 theorem gen_gc_floor_skip : gcFloorSkip = true := by decide
 theorem gen_gc_candidate_order : gcCandidateOrder = [.inFlight, .recheck, .delete] := by decide
+theorem gen_gc_recheck_per_candidate : gcRecheckPerCandidate = true := by decide
 theorem gen_track_before_payload : ∀ w, trackBeforePayload w = true := by intro w; cases w <;> decide
 theorem gen_guard_held : ∀ w, guardHeld w = true := by intro w; cases w <;> decide
 theorem gen_put_tag_seeded : ∀ w, putTagSeeded w = true := by intro w; cases w <;> decide
